@@ -848,7 +848,57 @@ func gTurnCreds(emit func(op string) string) {
 	}
 }
 
+// gAddrKinds: every kind of local candidate, with and without the mDNS name: host from the interface table (UDP own socket,
+// TCP mux), host on the UDP mux (IPv4, IPv6, link-local, loopback listen addresses, several of them), server reflexive (own
+// socket, srflx mux, address-rewrite), relay (plain and with rewrite rules) - each must know its own transport address (C03 on
+// the gather component) and carry the network type of its real family.
+func gAddrKinds(emit func(op string) string) {
+	tbl := "0:u:g4.1+g6.1+k6.1/1:ul:l4.1+l6.1"
+	for _, md := range []bool{false, true} {
+		for _, c := range []gGenCfg{
+			{ct: "h", nt: "", ifaces: tbl},
+			{ct: "h", nt: "", lo: true, tm: "any", ifaces: tbl},
+			{ct: "h", nt: "u4+t6", tm: "g6.1", pmin: 5000, pmax: 5063, ifaces: tbl},
+			{ct: "h", nt: "", um: "g4.1", ifaces: tbl},
+			{ct: "h", nt: "", um: "g6.1", ifaces: tbl},
+			{ct: "h", nt: "", um: "k6.2", ifaces: tbl},
+			{ct: "h", nt: "", um: "c6.3+c6.4+k6.2", ifaces: gIfaceTables[0]},
+			{ct: "h", nt: "", um: "s6.1+g6.2+g4.1", tm: "any", ifaces: tbl},
+			{ct: "h", nt: "u4", um: "g6.1+k6.1+g4.2+g4.1", ifaces: tbl},
+			{ct: "h", nt: "u6", um: "g4.1+l4.1", ifaces: tbl},
+			{ct: "h", nt: "u6+t4", um: "g4.1+l6.1+g6.3", lo: true, ifaces: tbl},
+			{ct: "h", nt: "", um: "l4.1+k4.1", lo: true, ifaces: tbl},
+			{ct: "hs", nt: "", su: 1, um: "g6.1+g4.1", sm: "g4.1", ifaces: tbl},
+			{ct: "hs", nt: "u4+u6", su: 1, ifaces: tbl},
+			{ct: "s", nt: "", su: 1, rif: "n", ifaces: tbl},
+			{ct: "s", nt: "u4", sr: "rep2", ifaces: tbl},
+			{ct: "s", nt: "", sr: "pin:x4.80+x6.80", ifaces: tbl},
+			{ct: "hsr", nt: "", su: 1, tu: 1, um: "k6.2+g4.1", ifaces: tbl},
+			{ct: "r", nt: "u4", tu: 1, rr: "app", ifaces: tbl},
+			{ct: "r", nt: "u4", tu: 1, rr: "rep", rif: "n", ifaces: tbl},
+		} {
+			c.md = md
+			emit("gather new " + c.String() + " " + c.ifaces)
+			for _, op := range []string{"gather", "stunreply 0 1", "turnreply 0 ok1", "stunreply 0 2", "stunreply 0 1", "stunreply 0 3",
+				"restart", "gather", "close", "end"} {
+				emit("gather " + op)
+			}
+		}
+	}
+	// continual gathering over the UDP mux in mDNS mode: the second pass meets the candidate of the first
+	c := gGenCfg{ct: "h", nt: "", md: true, um: "k6.2+g4.1", cg: true, mi: 733, ifaces: gIfaceTables[0]}
+	emit("gather new " + c.String() + " " + c.ifaces)
+	for _, op := range []string{"gather", "ifaces 0:u:g4.1+g4.2", "adv 733", "close", "end"} {
+		emit("gather " + op)
+	}
+}
+
 func gGen(o *vOut, r *vRand, thorough bool, args []string, emit func(op string) string) {
+	if len(args) > 0 && args[0] == "addrkinds" {
+		// the block of candidate kinds alone (component of check C03: every local candidate knows its transport address)
+		gAddrKinds(emit)
+		return
+	}
 	if len(args) > 0 && args[0] == "turncreds" {
 		// the relay-credentials block alone (component of check C11: one nil candidate, after all candidates of its cycle)
 		gTurnCreds(emit)
@@ -1012,6 +1062,8 @@ func gGen(o *vOut, r *vRand, thorough bool, args []string, emit func(op string) 
 	} else {
 		emit("gather stress 2500")
 	}
+	// 4a'. every kind of local candidate, with and without the mDNS name
+	gAddrKinds(emit)
 	// 4b'. TURN URLs without credentials
 	gTurnCreds(emit)
 	// 4c. continual gathering (GatherContinually + monitor interval): the interface table changes during the session
